@@ -124,12 +124,12 @@ EntOK(e) ==
     \* cross entropy and KL
     /\ IF NanTermPQ(e.a, e.b) THEN e.CE.c = "nan" /\ e.KL.c = "nan"
        ELSE IF InfTermPQ(e.a, e.b) THEN e.CE.c = "inf" /\ e.KL.c = "inf"
-       ELSE /\ e.CE.c = "fin" /\ EntClose(e, e.CE.q, -PLnQ(e.a, e.b, e.m))
-            /\ e.KL.c = "fin" /\ EntClose(e, e.KL.q, PLnP(e.a, e.m) - PLnQ(e.a, e.b, e.m))
+       ELSE /\ e.CE.c = "fin" /\ EntClose(e, e.CE.q, -PLnQx(e.a, e.b, e.m, e.bx))
+            /\ e.KL.c = "fin" /\ EntClose(e, e.KL.q, PLnP(e.a, e.m) - PLnQx(e.a, e.b, e.m, e.bx))
             \* H(p,q) = H(p) + KL(p,q)
             /\ Abs(e.CE.q - (e.H.q + e.KL.q)) <= 2 * (Len(e.a) + 2)
             \* KL >= 0 and H <= ln n for normalised distributions
-            /\ ((\A x \in DOMAIN e.a : e.a[x] >= 0 /\ e.b[x] >= 0) /\ Sum(e.a) = Pw(2, e.m) /\ Sum(e.b) = Pw(2, e.m)) => e.KL.q >= -(Len(e.a) + 2)
+            /\ ((\A x \in DOMAIN e.a : e.a[x] >= 0 /\ e.b[x] >= 0) /\ (\A x \in DOMAIN e.bx : e.bx[x] = 0) /\ Sum(e.a) = Pw(2, e.m) /\ Sum(e.b) = Pw(2, e.m)) => e.KL.q >= -(Len(e.a) + 2)
     /\ IF NanTermP(e.a) THEN e.KLself.c = "nan" ELSE e.KLself.c = "fin" /\ Abs(e.KLself.q) <= 1          \* KL(p,p) = 0
     /\ (~NanTermP(e.a) /\ Sum(e.a) = Pw(2, e.m) /\ \A x \in DOMAIN e.a : e.a[x] >= 0) =>
           e.H.q * Pw(2, 20 - e.qe) <= LnT[Len(e.a)] + 4 * (Len(e.a) + 2) * Pw(2, 20 - e.qe)              \* H <= ln n
